@@ -46,10 +46,9 @@ class OA(np.ndarray):
     def __setitem__(self, key, value):
         # a float array refuses an array (even of one element) for a single element; an object array would silently store it
         if self.dtype == object and isinstance(value, np.ndarray) and value.ndim > 0 and not isinstance(key, (slice, np.ndarray, list)):
-            try:
-                single = np.ndim(np.empty(self.shape, dtype=np.int8)[key]) == 0
-            except Exception:
-                single = False
+            # only a key made of integers alone addresses an element; `a[..., 0] = array([v])` assigns to a 0-d view and is accepted
+            ks = key if isinstance(key, tuple) else (key,)
+            single = len(ks) == self.ndim and all(isinstance(k, (int, np.integer)) and not isinstance(k, bool) for k in ks)
             if single:
                 raise ValueError('setting an array element with a sequence.')
         np.ndarray.__setitem__(self, key, value)
